@@ -29,7 +29,24 @@ re-ordered: `i > 3 || i >= bytes.len()` arrives as `(decide (i > 3) || decide (i
 keep their names (primed when they collide with a Lean keyword or a primitive), so renaming or re-formatting yields an
 α-equivalent definition and the proofs of `Lemmas/IncludeHelpers.lean` (each definition = the function of
 `Model/Include.lean`, for all lines) go through unchanged; a changed bound, comparison, character or slice makes them
-fail.  A construct outside the table makes `generate` return (False, reason)."""
+fail.  A construct outside the table makes `generate` return (False, reason).
+
+Second part: the control skeleton of `expand_mechdown_includes_recursive` and `expand_mechdown_include_tokens` (type
+`Skel` of Model/IncludeIR.lean).  The body is walked in evaluation order; `if` / `if let` / `match` / let-else / a lazy
+`&&`/`||` operand become `.branch`, `for` becomes `.loop`, and only these events are kept (all else is `.skip`):
+  e?                                                         .mayFail        (e does not touch the set)
+  return Err(…) / final Err(…);  return Ok(…) / final Ok(…)  .exitErr;  .returnOk
+  continue;                                                  .continue_
+  if SET.contains(&K) { return Err(…); }                     .guardActive
+  SET.insert(K.clone());   SET.remove(&K);                   .insert   .remove
+  expand_mechdown_include_tokens(…, &K, SET)?                .callTokens
+  expand_mechdown_includes_recursive(…, SET)?                .callRecursive
+  any other mention of SET (another key, another method, an alias, a call whose result is not `?`-propagated, …)  .foreign
+SET is the parameter of type `&mut HashSet<_>` and K the variable that is inserted (both found by binding, so they may
+be renamed; K must be bound exactly once and never assigned).  `break`, `while`, `loop`, closures that can fail or touch
+the set, a function value that is neither `Ok(…)` nor `Err(…)` are refused.  The generated file ends in
+`C20_active_set_discipline_as_written : disciplineOk recursive_skeleton ∧ disciplineOk tokens_skeleton := by decide`;
+`discipline_sound` (Lemmas/IncludeHelpers.lean) says what a checked body guarantees."""
 import os, re, sys
 sys.path.insert(0, os.path.dirname(os.path.abspath(__file__)))
 from rustmini import Unrecognised, tokenize, parse_fn
@@ -355,15 +372,198 @@ def translate_helpers(toks):
         out.append((n, ["/-- `%s` -/" % rust_sig, head] + body))
     return out
 
+
+# ---------------------------------------------------------------------------------------------------------------------
+# the control skeleton of the two expand_* functions (what happens to `active_set`, where the function can be left)
+
+TOKENS_FN, RECURSIVE_FN = "expand_mechdown_include_tokens", "expand_mechdown_includes_recursive"
+
+def _mentions(x, name):
+    if isinstance(x, (tuple, list)):
+        if len(x) == 2 and x[0] == 'path' and x[1] == [name]: return True
+        if len(x) == 3 and x[0] == 'macro': return any(t == ('id', name) for t in x[2])
+        return any(_mentions(y, name) for y in x)
+    return False
+
+def _binders(x, acc):
+    """every name bound by a pattern anywhere in the tree"""
+    if isinstance(x, tuple) and len(x) == 3 and x[0] == 'bind' and isinstance(x[1], str) and isinstance(x[2], bool): acc.append(x[1])
+    elif isinstance(x, (tuple, list)):
+        for y in x: _binders(y, acc)
+
+class Skeleton:
+    def __init__(self, fn):
+        self.fn = fn
+        sets = [n for n, t in fn["params"] if re.match(r'^& mut HashSet < \w+ >$', t)]
+        if len(sets) != 1: raise Unrecognised("%s: which parameter is the active set?" % fn["name"])
+        self.set = sets[0]
+        bound = []; _binders(fn["body"], bound)
+        if self.set in bound: raise Unrecognised("%s: the active-set parameter is shadowed" % fn["name"])
+        # the key: the variable that is inserted
+        keys = []
+        self._find_inserts(fn["body"], keys)
+        self.key = None
+        if keys:
+            if len(set(keys)) != 1: raise Unrecognised("%s: several different keys are inserted" % fn["name"])
+            self.key = keys[0]
+            n = bound.count(self.key) + sum(1 for p, _ in fn["params"] if p == self.key)
+            if n != 1: raise Unrecognised("%s: the inserted variable %s is bound %d times" % (fn["name"], self.key, n))
+            if self._assigned(fn["body"], self.key): raise Unrecognised("%s: the inserted variable is assigned" % fn["name"])
+    def fail(self, what):
+        raise Unrecognised("%s (skeleton): %s" % (self.fn["name"], what))
+    def _find_inserts(self, x, acc):
+        if isinstance(x, tuple) and len(x) == 4 and x[0] == 'mcall' and x[1] == ('path', [self.set]) and x[2] == 'insert' and len(x[3]) == 1:
+            k = self._key_of(x[3][0])
+            if k: acc.append(k)
+        if isinstance(x, (tuple, list)):
+            for y in x: self._find_inserts(y, acc)
+    def _assigned(self, x, name):
+        if isinstance(x, tuple) and len(x) == 4 and x[0] == 'assign' and _mentions(x[1], name): return True
+        if isinstance(x, (tuple, list)): return any(self._assigned(y, name) for y in x)
+        return False
+    def _key_of(self, e):
+        """`k`, `&k`, `k.clone()`, `&k.clone()` → k"""
+        while True:
+            if e[0] == 'unary' and e[1] == '&': e = e[2]
+            elif e[0] == 'mcall' and e[2] in ('clone', 'to_path_buf', 'to_owned') and not e[3]: e = e[1]
+            else: break
+        if e[0] == 'path' and len(e[1]) == 1: return e[1][0]
+        return None
+
+    # ---- every function returns a list of Skel nodes (texts)
+    def expr(self, e):
+        k = e[0]
+        if k in ('int', 'char', 'byte', 'str', 'bool'): return []
+        if k == 'path': return [".ev .foreign"] if e[1] == [self.set] else []
+        if k == 'macro':
+            if any(t == ('op', '?') for t in e[2]) or any(t[0] == 'id' and t[1] in ('return', 'continue', 'break') for t in e[2]): self.fail("control flow inside a macro call")
+            return [".ev .foreign"] if any(t == ('id', self.set) for t in e[2]) else []
+        if k == 'try':
+            c = e[1]
+            if c[0] == 'call' and c[1][0] == 'path' and c[1][1] in ([TOKENS_FN], [RECURSIVE_FN]):
+                args = c[2]
+                if not args or args[-1] != ('path', [self.set]):
+                    return sum((self.expr(a) for a in args), []) + [".ev .foreign"]
+                pre = sum((self.expr(a) for a in args[:-1]), [])
+                if c[1][1] == [TOKENS_FN]:
+                    if len(args) != 3 or self.key is None or self._key_of(args[1]) != self.key: return pre + [".ev .foreign"]
+                    return pre + [".ev .callTokens"]
+                if len(args) != 2: return pre + [".ev .foreign"]
+                return pre + [".ev .callRecursive"]
+            return self.expr(c) + [".ev .mayFail"]
+        if k == 'call':
+            f = e[1]
+            pre = sum((self.expr(a) for a in e[2]), [])
+            if f[0] == 'path' and f[1] in ([TOKENS_FN], [RECURSIVE_FN]): return pre + [".ev .foreign"]      # a call whose error is not propagated
+            return self.expr(f) + pre
+        if k == 'mcall':
+            if e[1] == ('path', [self.set]):
+                pre = sum((self.expr(a) for a in e[3]), [])
+                if self.key is not None and len(e[3]) == 1 and self._key_of(e[3][0]) == self.key:
+                    if e[2] == 'insert': return [".ev .insert"]
+                    if e[2] == 'remove': return [".ev .remove"]
+                return pre + [".ev .foreign"]
+            return self.expr(e[1]) + sum((self.expr(a) for a in e[3]), [])
+        if k == 'unary': return self.expr(e[2])
+        if k == 'cast': return self.expr(e[1])
+        if k == 'field': return self.expr(e[1])
+        if k == 'bin':
+            l, r = self.expr(e[2]), self.expr(e[3])
+            if e[1] in ('&&', '||') and r: return l + [self.branch(r, [])]
+            return l + r
+        if k == 'index': return self.expr(e[1]) + self.expr(e[2])
+        if k == 'range': return (self.expr(e[1]) if e[1] else []) + (self.expr(e[2]) if e[2] else [])
+        if k == 'tuple': return sum((self.expr(a) for a in e[1]), [])
+        if k == 'struct': return sum((self.expr(v) for _, v in e[2]), [])
+        if k == 'closure':
+            if self.expr(e[2]): self.fail("a closure that touches the active set or can fail")
+            return []
+        if k == 'block': return self.block(e[1])
+        if k == 'if':
+            c = e[1]
+            if c[0] == 'mcall' and c[1] == ('path', [self.set]) and c[2] == 'contains':
+                then = self.block(e[2])
+                if self.key is not None and len(c[3]) == 1 and self._key_of(c[3][0]) == self.key and then == [".ev .exitErr"] and e[3] is None:
+                    return [".ev .guardActive"]
+                return [".ev .foreign"]
+            return self.expr(c) + [self.branch(self.block(e[2]), self.block(e[3]) if e[3] else [])]
+        if k == 'iflet':
+            return self.expr(e[2]) + [self.branch(self.block(e[3]), self.block(e[4]) if e[4] else [])]
+        if k == 'match':
+            arms = [self.expr(b) for _, b in e[2]]
+            if not arms: self.fail("empty match")
+            node = arms[-1]
+            for a in reversed(arms[:-1]): node = [self.branch(a, node)]
+            return self.expr(e[1]) + node
+        self.fail("expression " + k)
+
+    def seq(self, nodes):
+        if not nodes: return ".skip"
+        if len(nodes) == 1: return nodes[0]
+        return "(.seq %s %s)" % (self.atom(nodes[0]), self.atom(self.seq(nodes[1:])))
+    def atom(self, t):
+        return t if t.startswith("(") or t == ".skip" else "(" + t + ")"
+    def branch(self, a, b):
+        return ".branch %s %s" % (self.atom(self.seq(a)), self.atom(self.seq(b)))
+
+    def exit_of(self, e):
+        """`Ok(..)` / `Err(..)` as the value the function returns"""
+        if e[0] == 'call' and e[1] == ('path', ['Ok']) and len(e[2]) == 1: return self.expr(e[2][0]) + [".ev .returnOk"]
+        if e[0] == 'call' and e[1] == ('path', ['Err']) and len(e[2]) == 1: return self.expr(e[2][0]) + [".ev .exitErr"]
+        self.fail("the function returns something that is neither Ok(…) nor Err(…)")
+
+    def block(self, blk, top=False):
+        stmts, final = blk
+        out = []
+        for s in stmts:
+            k = s[0]
+            if k == 'let':
+                if s[3] is not None: out += self.expr(s[3])
+                if s[4] is not None: out.append(self.branch(self.block(s[4]), []))
+            elif k == 'expr': out += self.expr(s[1])
+            elif k == 'assign':
+                if _mentions(s[1], self.set): out.append(".ev .foreign")
+                out += self.expr(s[3])
+            elif k == 'for': out += self.expr(s[2]) + [".loop " + self.atom(self.seq(self.block(s[3])))]
+            elif k == 'return':
+                if s[1] is None: self.fail("return without a value")
+                out += self.exit_of(s[1])
+            elif k == 'continue': out.append(".ev .continue_")
+            else: self.fail("statement " + k)
+        if final is not None: out += self.exit_of(final) if top else self.expr(final)
+        return out
+
+    def text(self):
+        return self.seq(self.block(self.fn["body"], top=True))
+
+def pretty_skel(t, width=110):
+    """breaks a long `.seq a (.seq b …)` chain over lines"""
+    lines, cur, depth = [], "", 0
+    i = 0
+    while i < len(t):
+        if t.startswith("(.seq ", i) and len(cur) > 40:
+            lines.append(cur.rstrip()); cur = "  " * 2
+        cur += t[i]; i += 1
+    lines.append(cur)
+    return lines
+
+def extract_skeletons(toks):
+    out = []
+    for name, lean in ((RECURSIVE_FN, "recursive_skeleton"), (TOKENS_FN, "tokens_skeleton")):
+        fn = parse_fn(toks, name)
+        sk = Skeleton(fn)
+        out.append((name, lean, sk.key, sk.set, sk.text()))
+    return out
+
 def read_source(repo):
     return open(os.path.join(repo, SOURCE), newline='', encoding='utf-8').read()
 
 def extract(repo="/repo"):
     toks = tokenize(read_source(repo))
-    return translate_helpers(toks)
+    return translate_helpers(toks), extract_skeletons(toks)
 
 def generate(root, repo="/repo"):
-    try: helpers = extract(repo)
+    try: helpers, skels = extract(repo)
     except (Unrecognised, OSError, UnicodeDecodeError, IndexError, KeyError, ValueError) as e:
         return False, "C20 include-helper extraction failed: %s" % e
     L = ["/- GENERATED by tools/extract_include.py from src/mechfs.rs (the line-level helpers of the include expander) —",
@@ -371,12 +571,21 @@ def generate(root, repo="/repo"):
          "import MechVerif.Model.IncludeIR", "namespace MechVerif.Gen.IncludeHelpers",
          "open MechVerif.Include MechVerif.IncludeIR", "set_option linter.unusedVariables false", ""]
     for n, lines in helpers: L += lines + [""]
-    L += ["end MechVerif.Gen.IncludeHelpers", ""]
+    for name, lean, key, setv, text in skels:
+        L += ["/-- the control skeleton of `%s`: what happens to `%s`%s and where the function can be left -/" % (
+                  name, setv, " (key: `%s`)" % key if key else ""),
+              "def %s : Skel :=" % lean] + ["  " + l for l in pretty_skel(text)] + [""]
+    L += ["/-- both bodies obey the `active_set` discipline (`chk`: the key is inserted only after the `contains` guard, removed",
+          "    before every `Ok` return, the set is handed to `expand_mechdown_include_tokens` only while the key is in it, every",
+          "    call is propagated by `?`, nothing else touches the set) -/",
+          "theorem C20_active_set_discipline_as_written :",
+          "    %s := by decide" % " ∧ ".join("disciplineOk %s = true" % lean for _, lean, _, _, _ in skels), "",
+          "end MechVerif.Gen.IncludeHelpers", ""]
     text = "\n".join(L)
     out = os.path.join(root, 'lean', 'MechVerif', 'Gen', 'IncludeHelpers.lean')
     old = open(out).read() if os.path.exists(out) else None
     if old != text: open(out, 'w').write(text)
-    return True, "C20 include helpers extracted: %d definitions (%s)" % (len(helpers), ", ".join(n for n, _ in helpers))
+    return True, "C20 include helpers extracted: %d definitions (%s), %d control skeletons" % (len(helpers), ", ".join(n for n, _ in helpers), len(skels))
 
 if __name__ == '__main__':
     root = os.path.dirname(os.path.dirname(os.path.abspath(__file__)))
@@ -386,5 +595,7 @@ if __name__ == '__main__':
         if a.startswith("root="): outroot = a[5:]
         if a == "--show": show = True
     if show:
-        for n, lines in extract(repo): print("\n".join(lines)); print()
+        h, k = extract(repo)
+        for n, lines in h: print("\n".join(lines)); print()
+        for name, lean, key, setv, text in k: print(name, "key =", key, "set =", setv); print("\n".join(pretty_skel(text))); print()
     else: print(generate(outroot, repo))
